@@ -16,6 +16,7 @@ import (
 )
 
 type RoutedMessage struct {
+	fromLog    bool
 	offset     uint64
 	publish    *packet.Publish
 	recipients []string
@@ -73,7 +74,8 @@ func NewWriter(peerID uint64, subscriptions distributed.SubscriptionsState, loca
 func (w *writer) Schedule(ctx context.Context, offset uint64) {
 	select {
 	case w.queue <- RoutedMessage{
-		offset: offset,
+		fromLog: true,
+		offset:  offset,
 	}:
 	case <-ctx.Done():
 	}
@@ -252,7 +254,7 @@ func (w *writer) Run(ctx context.Context, log messageLog) error {
 		case <-ctx.Done():
 			return nil
 		case routedMessage := <-w.queue:
-			if routedMessage.offset != 0 {
+			if routedMessage.fromLog {
 				started := time.Now()
 				p, err := log.Get(routedMessage.offset)
 				if err != nil {
